@@ -179,7 +179,10 @@ CLAIMED = {
                 "lookup by key then append, Reconstruct honouring apply*, column groups merged on save and expanded on load) for "
                 "Faithful, DimsKept, NoMerge, NoGrowth on every workbook of <= 2 carriers over a palette of one-attribute "
                 "variants, partial styles and key-adjacent fonts through save, reload, save, reload, and refutes the design "
-                "whose font key is written without separators. Behaviours of the bounded model, TLC-simulated histories and "
+                "whose font key is written without separators; with two workbook objects and an Import action (a Style read from "
+                "one loaded file assigned in another, number formats carrying their file ids) in every interleaving with both "
+                "workbooks' saves and reloads, refuting the design that trusts a format's id. Behaviours of the bounded model, "
+                "TLC-simulated one- and two-workbook histories and "
                 "seeded random workbooks with 1..600 distinct styles are run on the real library; after every assignment, "
                 "save and reload the effective formatting and dimensions of every cell, row and column read through the public "
                 "getters must equal the specification's post-state, and the table sizes of consecutive saves (independent "
@@ -263,8 +266,9 @@ CLAIMED = {
                 "and once more after API edits) are executed on the library; the written bytes are decoded by an independent "
                 "zipfile+expat reader and TLC evaluates the validity clauses (content types, relationships, r:id resolution and "
                 "type, unique ids/names, CT_Worksheet child order, row/cell order and range, style/sst/dxf/xf indices, "
-                "activeTab) on the logged package and compares decoded cells, formulas, hyperlinks, merges, defined names and "
-                "sheet list with its own state.",
+                "activeTab; every cfRule has a dxfId iff its rule has a style, inside <dxfs>, and the designated entry carries "
+                "the rule's formatting) on the logged package and compares decoded cells, formulas, hyperlinks, merges, "
+                "defined names and sheet list with its own state.",
         "note": TRUST + ", pydec/xlsx.py (zip CRC by zipfile, well-formedness/legal characters by expat), and three string "
                         "functions TLC cannot compute (XML line-end normalisation, ST_Xstring unescaping, XML Char legality) passed "
                         "as facts bound to model cells. Styled blank cells are not content; charts only on plainly named sheets; "
